@@ -51,7 +51,7 @@ type profile struct {
 
 var allOps = []string{
 	"add", "add", "add", "append", "concat", "rename", "rename", "renameregexp", "addid", "cleannames", "trimnames",
-	"trimnamesauto", "sort", "shuffle", "filterlength", "dedup", "rmgapseqs", "rmcharseqs", "rmgapsites", "rmcharsites",
+	"trimnamesauto", "sort", "shuffle", "filterlength", "dedup", "rmgapseqs", "rmcharseqs", "rmgapsites", "rmcharsites", "rmmajsites",
 	"translate", "revcomp", "revcompsome", "toupper", "tolower", "trimseqs", "compress", "replace", "clone", "sample",
 	"clear", "setchar", "replacechar", "unalign", "setpolicy",
 }
@@ -61,7 +61,7 @@ var profiles = []profile{
 	{"general", allOps},
 	{"names", []string{"rename", "rename", "renameregexp", "addid", "cleannames", "trimnames", "trimnamesauto", "sort", "add", "add",
 		"concat", "replacechar", "revcompsome", "append", "shuffle", "clone", "dedup", "setpolicy", "sample"}},
-	{"columns", []string{"add", "add", "append", "rmgapsites", "rmcharsites", "trimseqs", "compress", "translate", "concat", "replace",
+	{"columns", []string{"add", "add", "append", "rmgapsites", "rmcharsites", "rmmajsites", "trimseqs", "compress", "translate", "concat", "replace",
 		"clear", "rmgapseqs", "filterlength", "setchar", "clone", "sample", "setpolicy"}},
 	{"rows", []string{"add", "add", "add", "append", "filterlength", "filterlength", "dedup", "rmgapseqs", "rmcharseqs", "clear", "sample",
 		"clone", "setpolicy", "sort", "shuffle", "unalign", "translate", "rename"}},
@@ -159,6 +159,9 @@ func drawOp(t *rapid.T, menu []string, chars string) opRec {
 	case "rmgapsites":
 		op.N = []int{in(0, len(cutoffQuarters)-1, "cutoff")}
 		op.B = []bool{b("ends")}
+	case "rmmajsites":
+		op.N = []int{in(0, len(cutoffQuarters)-1, "cutoff")}
+		op.B = []bool{b("ends"), b("gaps"), b("n")}
 	case "rmcharsites":
 		op.N = []int{in(0, len(cutoffQuarters)-1, "cutoff")}
 		op.S = []string{gen.SeqN(t, chars, in(1, 3, "nchars"))}
@@ -183,6 +186,7 @@ func drawOp(t *rapid.T, menu []string, chars string) opRec {
 		op.N = []int{in(0, len(replMenu)-1, "rule")}
 	case "clone", "unalign", "setpolicy":
 		op.N = []int{in(0, 3, "policy")}
+		op.B = []bool{in(0, 2, "asbag") == 0} // clone: CloneSeqBag() even on an alignment
 	case "sample":
 		rel := in(0, 1, "relative")
 		if rel == 1 {
@@ -355,6 +359,16 @@ func checkHistory(h history) (o pbt.Outcome, err error) {
 		if e := observe(c.sb, m); e != nil {
 			return o, fmt.Errorf("after step %d (%s, history %v): %v", k, op.Op, c.executed, e)
 		}
+		// a clone is an independent list: the container it was made from never changes afterwards
+		if c.srcSb != nil && op.Op != "clone" && op.Op != "unalign" {
+			if e := observe(c.srcSb, c.srcM); e != nil {
+				return o, fmt.Errorf("after step %d (%s, history %v) the container that was cloned at step %d changed: %v", k, op.Op, c.executed, c.srcStep, e)
+			}
+			if inPlaceEdits[op.Op] {
+				c.invalidations++
+				o.Class("inv:clone>in-place-edit>source-reread")
+			}
+		}
 		c.executed = append(c.executed, op.Op)
 		o.Class("op=%s", op.Op)
 		o.Class("pair=%s>%s", prev, op.Op)
@@ -376,6 +390,10 @@ func checkHistory(h history) (o pbt.Outcome, err error) {
 	o.Classes = uniq(o.Classes)
 	return o, nil
 }
+
+// operations that edit residues or names in place (they can expose rows shared between a clone and its source)
+var inPlaceEdits = map[string]bool{"toupper": true, "tolower": true, "setchar": true, "replacechar": true, "revcomp": true,
+	"revcompsome": true, "rename": true, "renameregexp": true, "addid": true, "cleannames": true, "trimnames": true, "trimnamesauto": true, "compress": true}
 
 func (m *model) bury(name string) {
 	for _, g := range m.grave {
@@ -454,6 +472,9 @@ func canonicalOps() []opRec {
 		{Op: "rmgapsites", N: []int{1}, B: []bool{false}},
 		{Op: "rmgapsites", N: []int{2}, B: []bool{true}},
 		{Op: "rmcharsites", N: []int{5}, S: []string{"A"}, B: []bool{false, true, false, false, false}},
+		{Op: "rmmajsites", N: []int{3}, B: []bool{true}},
+		{Op: "rmmajsites", N: []int{5}, B: []bool{true}},
+		{Op: "rmmajsites", N: []int{5}, B: []bool{false}},
 		{Op: "translate", N: []int{0, 0}},
 		{Op: "translate", N: []int{1, 1}},
 		{Op: "translate", N: []int{-1, 0}},
@@ -469,6 +490,7 @@ func canonicalOps() []opRec {
 		{Op: "replace", N: []int{5}},
 		{Op: "clone", N: []int{0}},
 		{Op: "clone", N: []int{2}},
+		{Op: "clone", N: []int{0}, B: []bool{true}},
 		{Op: "sample", N: []int{0, 1, 1}, Seed: 11},
 		{Op: "sample", N: []int{1, 0, 0}, Seed: 12},
 		{Op: "clear"},
@@ -521,40 +543,4 @@ func TestOperationPairs(t *testing.T) {
 			}
 			return o, err
 		})
-}
-
-// ---- known findings (KNOWN_FINDINGS.txt / FINDINGS.md) -------------------------------------------
-//
-// While a finding is listed as known: the histories steer around its signature (excluded_known in
-// the evidence) and this test runs the minimal reproduction unrestricted; it prints the
-// KNOWN-FINDING line as long as the reproduction still fails and nothing once it passes.
-
-var knownRepros = []struct {
-	key, what string
-	h         history
-}{
-	{knownFilterEmpties, "FilterLength removing every row of an alignment keeps the old Length() instead of -1 (a later insertion of another length is rejected)",
-		history{Kind: "alignment", StartKind: "one-row", Profile: "known", Start: gen.Ali{Alphabet: "nt", Rows: []gen.Row{{Name: "s0", Seq: "A"}}},
-			Ops: []opRec{{Op: "filterlength", N: []int{2, -1, 0}}, {Op: "add", N: []int{-1, 0, 0, 1}, S: []string{"n", "ACG", ""}}}}},
-	{knownTrimNamesIndex, "TrimNames: a new name equal to the current name of a later row loses its entry in the name index (GetSequence fails for an existing row)",
-		history{Kind: "alignment", StartKind: "hostile-names", Profile: "known", Start: gen.Ali{Alphabet: "nt", Rows: []gen.Row{{Name: "ab", Seq: "A"}, {Name: "ab01", Seq: "C"}}},
-			Ops: []opRec{{Op: "trimnames", N: []int{4, 0}}}}},
-}
-
-func TestKnownFindings(t *testing.T) {
-	noSteer = true
-	defer func() { noSteer = false }()
-	for _, k := range knownRepros {
-		if !pbt.Known(k.key) {
-			continue // not listed: the other runs exercise the signature and report it themselves
-		}
-		o, err := pbt.Eval(k.h, checkHistory)
-		o.Class("known-finding-repro:%s", k.key)
-		if err != nil {
-			pbt.KnownFinding(t, k.key, k.what)
-			o.Class("known-finding-still-fails:%s", k.key)
-		}
-		pbt.Note(t, k.h, o)
-	}
-	pbt.Complete(t)
 }
